@@ -188,6 +188,25 @@ def run(ctx):
                 pvlib.report_violation(ctx, f"warc_parallel:{j}:{z}:{hx(data)[:40]}", {"argv": ["warc_parallel"] + args + ["cat"], "stdin_hex": hx(data)[:200000], "status": st,
                                        "stderr": err.decode(errors="replace")[-300:]}, summary=f"warc_parallel {' '.join(args)} cat: {problem}")
                 break
+    # gzip members that expand to NOTHING (what `cat shard*.warc.gz` gives when a shard had no record): one, two, three in a row, in
+    # front of, between and behind the records; the records must all come out
+    empty_m = gzip.compress(b"")
+    rs3 = [rec(b"first body", (b"WARC-Target-URI: u1",)), rec(b"second " * 30, (b"WARC-Target-URI: u2",)), rec(b"", (b"WARC-Target-URI: u3",))]
+    for nempty in (1, 2, 3):
+        for where in (0, 1, 2, 3):
+            ms = [gzip.compress(r) for r in rs3]
+            ms[where:where] = [empty_m] * nempty
+            blob = b"".join(ms)
+            x = pvlib.run_lines(impl, [f"warc.read - {hx(blob)}"], env=pvlib.san_env())[0]
+            ctx.count("warc.read.gz-empty-members", 1, [(nempty, where)])
+            if not x.startswith("ok ") or classify(x) != (rs3, None):
+                pvlib.report_violation(ctx, f"warc-gz-empty:{nempty}:{where}", {"ops": [f"warc.read - {hx(blob)}"], "impl": x[:300],
+                                       "layout": f"3 records, one gzip member each, with {nempty} empty member(s) inserted before member {where}"},
+                                       summary=f"per-record gzip input with {nempty} empty gzip member(s) before record {where + 1}: {x[:80]}; expected the 3 records")
+                break
+        else:
+            continue
+        break
     # per-record .warc.gz input whose FIRST member ends 0..7 bytes before / after the end of the reader's 16384-byte input chunk (the
     # chunks start behind the 6 magic bytes): stored (level 0) members have an exactly known length, body + 23 bytes below 64 KiB.
     # Every layout must give the records back; the same file cut 1..5 bytes into the second member's header must be an error.
